@@ -5,7 +5,13 @@ dir=/verif/seeded/$id
 base=$(python3 -c "import json;print(json.load(open('$dir/meta.json')).get('patch_base','HEAD'))")
 prop=$(python3 -c "import json;print(json.load(open('$dir/meta.json'))['property'])")
 wt=/tmp/st-$$-$id
-git -C /repo worktree add -q --detach $wt $base || exit 3
+# the current HEAD when the patch still applies there (later fixes in place), else the commit the patch was written on
+git -C /repo worktree add -q --detach $wt HEAD || exit 3
+if ! git -C $wt apply $dir/patch.diff 2>/dev/null; then
+  git -C /repo worktree remove --force $wt; git -C /repo worktree add -q --detach $wt $base || exit 3
+else
+  git -C $wt checkout -q -- . ; git -C $wt clean -fdq; base=HEAD
+fi
 git -C $wt apply $dir/patch.diff || { echo "PATCH DOES NOT APPLY on $base"; git -C /repo worktree remove --force $wt; exit 3; }
 for c in ${@:-$prop}; do
   VERIF_REPO=$wt VERIF_EVIDENCE_DIR=/tmp/st-$$-ev /venv/bin/python /verif/vcheck $c --tier ${TIER:-quick} --seed ${SEED:-0} 2>&1 | grep "kind=\|tier=" | cut -c1-${WIDTH:-330}
